@@ -257,6 +257,14 @@ theorem sofia_satisfies_checker (K : Ctx) (hwf : K.table.WF) (tie : Tie) (htie :
   rw [if_pos c0, failsExt_eq_nil c1 hnd c3 c4 c5 (by simpa using hlen) c7]
   rfl
 
+/-- For wide tables the driver enumerates the concepts through the transposed table; the verdict is the
+    same as that of `failsC15`. -/
+theorem checker_via_transpose (t : Table) (hwf : t.WF) (ms : MinSupp) (lmax : Nat)
+    (out : List (List Nat × List Nat)) :
+    Spec.C15.failsC15T t ms lmax out = Spec.C15.failsC15 t ms lmax out := by
+  unfold Spec.C15.failsC15T Spec.C15.failsC15
+  rw [failsExtT_eq hwf]
+
 /-! ### decision trees and random forests -/
 
 /-- `parse_decision_tree_to_extents` returns exactly the distinct sets of training rows reaching the
